@@ -132,6 +132,20 @@ def run(chk):
             return "table accepted and stored as (n, 1); other key sampled in its own range"
         chk.run("C15.R2", f"{MOD}:DataGeneratorParameter.generate_data", {"table_shape": label}, go, construct=f"user table {label}")
 
+    # concrete counts with a batch size different from the number of samples: the table has n rows (not batch-size rows)
+    for shape, label in (((6, 1), "(n, 1)"), ((6,), "(n,)")):
+        def go_conc(shape=shape):
+            from ..alg import Fv
+            t = Fv('TAB', shape)
+            gen = G.cls("DataGeneratorParameter")(Sym('key'), 6, 4, {"th": (K('th_lo'), K('th_hi'))}, user_data={'nu': t})
+            got = to_at(gen.fields['param_n_samples']['nu'])
+            exp = t if len(shape) == 2 else t[:, None]
+            if not same(got, exp):
+                raise Violation("table", f"samples['nu'] = {got}", f"the user's table with shape (n, 1): {exp}")
+            return "a table of n = 6 rows is accepted with a batch size of 4"
+        chk.run("C15.R2", f"{MOD}:DataGeneratorParameter.__post_init__", {"table_shape": label, "n": 6, "param_batch_size": 4}, go_conc,
+                construct=f"user table {label}, n != batch size")
+
     for shape, label in ((('n_p', 2), "(n, 2)"), (('n_p', 1, 1), "(n, 1, 1)"), ((1, 'n_p'), "(1, n)")):
         def go(shape=shape):
             gen = param_gen({'nu': table('TAB', shape)}, [])
